@@ -80,10 +80,17 @@ type content struct {
 	SSYT   int            `json:"safe_search_youtube"`
 	Hash   map[string]int `json:"hash_lists"`
 	Filler int            `json:"filler_rules,omitempty"`
+	// Wide > 0 adds to both safe-search lists the hosts w<i>.<kind>.test,
+	// 0 <= i < Wide: host i is rewritten in version v iff i+v is even, to
+	// safe<v>.<kind>.test, so the verdict of EVERY host changes with v+1.
+	Wide int `json:"wide_safe_search_hosts,omitempty"`
+	// HashFiller unrelated hosts are put in FRONT of every hash list, so that
+	// resetting the hash storage takes a while.
+	HashFiller int `json:"hash_list_filler_hosts,omitempty"`
 }
 
 func (c content) clone() content {
-	n := content{RL: map[string]int{}, Svc: map[string]int{}, Hash: map[string]int{}, SSGen: c.SSGen, SSYT: c.SSYT, Filler: c.Filler}
+	n := content{RL: map[string]int{}, Svc: map[string]int{}, Hash: map[string]int{}, SSGen: c.SSGen, SSYT: c.SSYT, Filler: c.Filler, Wide: c.Wide, HashFiller: c.HashFiller}
 	for k, v := range c.RL {
 		n.RL[k] = v
 	}
@@ -162,7 +169,7 @@ func svcIndexJSON(c content) string {
 	return string(b)
 }
 
-func safeSearchText(kind string, v, filler int) string {
+func safeSearchText(kind string, v, filler, wide int) string {
 	b := &strings.Builder{}
 	fmt.Fprintf(b, "! safe search %s version %d\n", kind, v)
 	for j := 1; j <= v; j++ {
@@ -171,6 +178,11 @@ func safeSearchText(kind string, v, filler int) string {
 	fmt.Fprintf(b, "|ssip.%s.test^$dnsrewrite=NOERROR;A;10.10.0.%d\n", kind, v)
 	fmt.Fprintf(b, "|ssip.%s.test^$dnsrewrite=NOERROR;AAAA;2001:db8:10::%d\n", kind, v)
 	fillerRules(b, filler)
+	for i := 0; i < wide; i++ {
+		if (i+v)%2 == 0 {
+			fmt.Fprintf(b, "|w%d.%s.test^$dnsrewrite=NOERROR;CNAME;safe%d.%s.test\n", i, kind, v, kind)
+		}
+	}
 	return b.String()
 }
 
@@ -180,9 +192,12 @@ func hashHost(kind string, j int) string {
 	return fmt.Sprintf("%s%d.%s.test", hashHostPrefix(kind), j, kind)
 }
 
-func hashText(kind string, v int) string {
+func hashText(kind string, v, filler int) string {
 	b := &strings.Builder{}
 	fmt.Fprintf(b, "# %s version %d\n", kind, v)
+	for i := 0; i < filler; i++ {
+		fmt.Fprintf(b, "filler%d.%s-filler.test\n", i, kind)
+	}
 	fmt.Fprintf(b, "fixed.%s.test\n", kind)
 	for j := 1; j <= v; j++ {
 		b.WriteString(hashHost(kind, j) + "\n")
@@ -266,16 +281,16 @@ func (s *srv) serve(w http.ResponseWriter, rq *http.Request) {
 	case p == "/svc/index":
 		body = svcIndexJSON(c)
 	case p == "/ss/gen":
-		body = safeSearchText("gen", c.SSGen, c.Filler)
+		body = safeSearchText("gen", c.SSGen, c.Filler, c.Wide)
 	case p == "/ss/yt":
-		body = safeSearchText("yt", c.SSYT, 0)
+		body = safeSearchText("yt", c.SSYT, 0, c.Wide)
 	case strings.HasPrefix(p, "/hp/"):
 		k := strings.TrimPrefix(p, "/hp/")
 		if _, ok := c.Hash[k]; !ok {
 			http.NotFound(w, rq)
 			return
 		}
-		body = hashText(k, c.Hash[k])
+		body = hashText(k, c.Hash[k], c.HashFiller)
 	default:
 		http.NotFound(w, rq)
 		return
